@@ -17,6 +17,9 @@ Conforms(o) ==
             /\ o.out.protocol = c.proto                                   \* speaks the plugin's protocol, which is allowed
             /\ o.out.call_ok /\ o.out.ping_ok /\ o.out.large_ok           \* end to end: call, ping, large response
             /\ o.out.callback_h2p_ok /\ o.out.callback_p2h_ok             \* brokered callbacks in both directions
+            \* never a silently downgraded connection: with transport security on, brokered gRPC
+            \* connections are mutually authenticated too (net/rpc brokers inside the secured connection)
+            /\ ((c.htls # "none" /\ c.proto = "grpc") => (o.out.callback_h2p_sec = "tls" /\ o.out.callback_p2h_sec = "tls"))
             /\ o.out.unknown_name_err                                     \* dispensing an unknown plugin name is an error
             /\ (c.proto = "netrpc" => o.out.unserved_name_err)            \* also when only the plugin does not know it (net/rpc asks the plugin)
        [] want = "use_error" -> o.out.start_ok /\ ~o.out.first_use_ok     \* surfaces on first use, not silently downgraded
